@@ -34,6 +34,7 @@ CONSTANTS
   MaxSetSeq = 0
   MaxShots = 0
   OvfFirstInOpen = TRUE
+  HugeSeals = FALSE
   RecordHist = FALSE
   HistLen = 0
 INVARIANTS
